@@ -100,6 +100,27 @@ func runC18(c *Ctx) {
 	c.Floors["G"] = 45
 	c.Floors["L1"] = 60
 
+	frameLengthRule(c)
+	// sanity panics behind a precondition: the caller establishes the precondition (a peer's catch-up vote may have
+	// created the round already)
+	if fn := c.Fn("consensus/types", "HeightVoteSet", "SetRound"); fn != nil {
+		c.Guarded(fn, "create the round", CallTo(`^\(\*consensus/types\.HeightVoteSet\)\.addRound$`, ""), G("round not present yet (addRound panics on an existing round)", False(`^hvs\.roundVoteSets\[phi\(.*\)\]#1$`)))
+		for _, in := range findInstrs(fn, CallTo(`^\(\*consensus/types\.HeightVoteSet\)\.addRound$`, "")) {
+			// the round tested is the round created
+			a := argPaths(callCommon(in))
+			ok := false
+			for _, d := range domConds(in) {
+				if len(a) == 2 && d == "hvs.roundVoteSets["+a[1]+"]#1=F" {
+					ok = true
+				}
+			}
+			c.Check("G", fnName(fn)+"/the presence test is for the round being created", ok, instrPos(in), 1, "")
+		}
+	}
+	if fn := c.Fn("consensus/types", "HeightVoteSet", "AddVote"); fn != nil {
+		c.Guarded(fn, "create a catch-up round for the peer", CallTo(`^\(\*consensus/types\.HeightVoteSet\)\.addRound$`, ""), G("no vote set for that round yet", IsNil(`^call:\(\*consensus/types\.HeightVoteSet\)\.getVoteSet\(hvs, vote\.Round, vote\.Type\)$`)))
+	}
+
 	// ---- containment ------------------------------------------------------------------------------
 	if fn := c.Fn("lib/p2p/conn", "MConnection", "recvRoutine"); fn != nil {
 		first := ""
